@@ -26,6 +26,10 @@ def run(ctx):
     r2(ctx)
     r3(ctx)
     r4(ctx)
+    from . import c07
+    from .common import reuse
+
+    reuse(ctx, "C14.R5", [c07.r2, c07.r3], "after a connection loss the client reconnects (C07.R2 reset, C07.R3 retry), which is what triggers the refresh")
 
 
 def _classes_in(ctx, m, e):
